@@ -33,7 +33,10 @@ META = {
         'ring arithmetic), the low byte of an extended key (0 or 0xE0 accepted). INPUT is only issued when an Enter '
         'is waiting behind plain alphanumerics; INPUT$(n) only when the next n items to be delivered are single characters; soft keys F1..F10 are in the key stream '
         'under default, empty, 1..15-character and CR-containing KEY n texts (a key is never redefined while it waits and the '
-        'pointers are never POKEd while a text is partly read; F11/F12 and shifted function keys are not generated); Ctrl+C/Break/Pause keys and POKEs that move a pointer outside the waiting range (or to an odd / non-slot value) are not generated. After the '
+        'pointers are never POKEd while a text is partly read; F11/F12 are not generated); stored-program histories with KEY traps (predefined KEY(1..14) and user-defined '
+        'KEY 15..20 with every shift-state mask) that have a handler line and are ON: the key events carry scan codes and '
+        'Shift/Ctrl/Alt modifiers, exactly the trapped combination must be missing from the buffer (traps without ON KEY GOSUB '
+        'line, KEY(n) STOP and redefinition of an enabled trap are not generated); Ctrl+C/Break/Pause keys and POKEs that move a pointer outside the waiting range (or to an odd / non-slot value) are not generated. After the '
         'first divergence a history is abandoned (the model and the interpreter no longer share a state).'),
     'rule': ('case = one history (list of key-burst / read / INPUT / INPUT$ / clear / peek operations, run mode); distinct by '
              'that list; non-trivial = at least one keystroke was read back or inspected through PEEK'),
@@ -43,7 +46,7 @@ META = {
     'exhaustive': {
         'quick': 'directed core only: clearing POKE at all 16 ring positions x all 16 fill levels (0..15), bursts of 14..18 keys at all 16 ring positions; histories are sampled',
         'thorough': 'directed core only: clearing POKE at all 16 ring positions x all 16 fill levels (0..15), bursts of 14..18 keys at all 16 ring positions; histories are sampled'},
-    'require_counters': {'any': ['soft_keys_delivered_as_text', 'soft_keys_with_empty_text_delivered_as_key', 'keys_dropped_at_full', 'ring_wraps', 'clear_pokes_nonempty', 'partial_pokes_leaving_keys_waiting', 'peek_sweeps',
+    'require_counters': {'any': ['key_events_swallowed_by_trap', 'same_key_other_shift_state_passed_trap', 'soft_keys_delivered_as_text', 'soft_keys_with_empty_text_delivered_as_key', 'keys_dropped_at_full', 'ring_wraps', 'clear_pokes_nonempty', 'partial_pokes_leaving_keys_waiting', 'peek_sweeps',
                                  'reads_nonempty', 'reads_empty']},
     'timeout': {'quick': 900, 'thorough': 7200},
 }
@@ -72,6 +75,100 @@ def _ext_keys():
     sc = harness.scancode
     return [[u'\0H', sc.UP], [u'\0K', sc.LEFT], [u'\0M', sc.RIGHT], [u'\0P', sc.DOWN],
             [u'\0G', sc.HOME], [u'\0O', sc.END], [u'\0I', sc.PAGEUP], [u'\0Q', sc.PAGEDOWN]]
+
+
+MODSCAN = {'S': 0x2a, 'C': 0x1d, 'A': 0x38}
+LETTERS = {u'a': 0x1e, u's': 0x1f, u'd': 0x20, u'q': 0x10, u'z': 0x2c, u'b': 0x30}
+CURSOR = [[u'\0H', 0x48], [u'\0K', 0x4b], [u'\0M', 0x4d], [u'\0P', 0x50]]
+HANDLER_LINE = 60000
+
+
+def letter_event(ch, mods):
+    """Key-down event of a letter key under a shift state: [characters, scan code, modifiers]."""
+    scan = LETTERS[ch]
+    if 'A' in mods:
+        c = u'\0' + chr(scan)
+    elif 'C' in mods:
+        c = chr(ord(ch) - 96)
+    elif 'S' in mods:
+        c = ch.upper()
+    else:
+        c = ch
+    return [c, scan, mods]
+
+
+def mk_event(h, k):
+    mods = [MODSCAN[m] if m != 'S' else (0x2a if (k[1] or 0) % 2 else 0x36) for m in (k[2] if len(k) > 2 else '')]
+    return h.key_event(k[0], k[1], mods)
+
+
+def gen_trap_history(rng, ext):
+    """Program-mode history with KEY traps defined and enabled while keys of every shift state arrive."""
+    m = rk.Kbd()
+    tr = rk.KeyTraps()
+    ops = []
+    ntr = rng.randint(1, 3)
+    nums = rng.sample(list(range(1, 15)), rng.randint(0, min(2, ntr))) if rng.random() < 0.6 else []
+    user = rng.sample(list(range(15, 21)), max(1, ntr - len(nums)))
+    letters = sorted(LETTERS)
+    combos = set()
+    for n in user:
+        while True:
+            # no two traps for the same key and shift state (which of them would take the key is not pinned)
+            flags = rng.choice([0, 1, 2, 3, 4, 8, 4 | 8, 3 | 4, 4, 0])
+            scan = LETTERS[rng.choice(letters)]
+            if ((flags | 3 if flags & 3 else flags), scan) not in combos:
+                combos.add(((flags | 3 if flags & 3 else flags), scan))
+                break
+        tr.define(n, flags, scan)
+        ops.append(['kd', n, flags, scan])
+    for n in nums + user:
+        tr.handler.add(n)
+        ops.append(['kg', n])
+    for n in nums + user:
+        if rng.random() < 0.85:
+            tr.on.add(n)
+            ops.append(['ko', n, 'ON'])
+
+    def ev():
+        r = rng.random()
+        if r < 0.6:
+            return letter_event(rng.choice(letters), rng.choice(['', '', 'S', 'C', 'A', 'CA', 'SC']))
+        if r < 0.75:
+            k = list(rng.choice(_fkeys() + CURSOR))
+            return k + [rng.choice(['', '', 'S', 'C'])]
+        return gen_key(rng, ext) + ['']
+
+    for _ in range(rng.randint(8, 30)):
+        r = rng.random()
+        if r < 0.4 or ops[-1][0] in ('kd', 'kg', 'ko'):
+            keys = [ev() for _ in range(rng.randint(1, 8))]
+            for k in keys:
+                if not tr.swallows(k):
+                    m.key(key_bytes(k))
+            ops.append(['k', keys])
+        elif r < 0.7:
+            n = rng.randint(1, 5)
+            for _ in range(n):
+                m.read()
+            n += len(m.expansion)
+            while m.expansion:
+                m.read()
+            ops.append(['r', n])
+        elif r < 0.8:
+            n = rng.choice(nums + user)
+            if n in tr.on:
+                tr.on.discard(n)
+                ops.append(['ko', n, 'OFF'])
+            else:
+                tr.on.add(n)
+                ops.append(['ko', n, 'ON'])
+        else:
+            ops.append(['p', rng.choice([0, 1])])
+    ops.append(['p', 1])
+    ops.append(['r', len(m.stream()) + 2])
+    ops.append(['p', 0])
+    return ops
 
 
 def _fkeys():
@@ -217,6 +314,15 @@ def gen_history(rng, ext, with_clear):
 # ---------------------------------------------------------------------------------------
 # running a history against the interpreter
 
+def _trap_action(traps, act):
+    if act[0] == 'kd':
+        traps.define(act[1], act[2], act[3])
+    elif act[0] == 'kg':
+        traps.handler.add(act[1])
+    elif act[0] == 'ko':
+        (traps.on.add if act[2] == 'ON' else traps.on.discard)(act[1])
+
+
 class Divergence(Exception):
     def __init__(self, kind, text):
         Exception.__init__(self, text)
@@ -300,7 +406,7 @@ class Runner(object):
         c = op[0]
         if c == 'k':
             for k in op[1]:
-                q.put(h.key_event(k[0], k[1]))
+                q.put(mk_event(h, k))
             self._deliver(m, op[1])
         elif c == 'r':
             for _ in range(op[1]):
@@ -368,15 +474,23 @@ class Runner(object):
         npk = 0
         pending = []
         actions = []
+        traps = rk.KeyTraps()
+        shift = [0]             # boundaries taken by trap handlers so far (2 statements per invocation)
+        self.hits = {}
 
         def add(text, action=None):
             if pending:
                 # keys arrive before this statement's boundary; boundary 1 is RUN itself, then DEF SEG, DIM, DIM
-                sched.setdefault(len(stmts) + 2, []).extend(pending)
+                sched.setdefault(len(stmts) + 2 + shift[0], []).extend(pending)
                 actions.append((len(stmts), ('k', list(pending))))
+                for n in traps.firing(pending):
+                    # the trapped key is seen at this boundary: its handler (2 statements) runs before the statement
+                    shift[0] += 2
+                    self.hits[n] = self.hits.get(n, 0) + 1
                 del pending[:]
             if action:
                 actions.append((len(stmts), action))
+                _trap_action(traps, action)
             stmts.append(text)
 
         body = []
@@ -400,6 +514,12 @@ class Runner(object):
                 body.append(('s', poke_stmt(c, op[1]), (c, op[1])))
             elif c == 'm':
                 body.append(('s', macro_stmt(op[1], op[2]), ('m', op[1], op[2])))
+            elif c == 'kd':
+                body.append(('s', b'KEY %d,CHR$(%d)+CHR$(%d)' % (op[1], op[2], op[3]), ('kd', op[1], op[2], op[3])))
+            elif c == 'kg':
+                body.append(('s', b'ON KEY(%d) GOSUB %d' % (op[1], HANDLER_LINE + 10 * op[1]), ('kg', op[1])))
+            elif c == 'ko':
+                body.append(('s', b'KEY(%d) %s' % (op[1], op[2].encode()), ('ko', op[1], op[2])))
             elif c == 'p':
                 addrs = list(range(1050, 1086)) if op[1] else [1050, 1051, 1052, 1053]
                 first = npk
@@ -409,23 +529,29 @@ class Runner(object):
         add(b'DEF SEG=0')
         add(b'DIM R$(%d)' % (nr + 1))
         add(b'DIM P%%(%d)' % (npk + 1))
+        add(b'DIM H%(20)')
         for item in body:
             if item[0] == 'k':
                 pending.extend(item[1])
             else:
                 add(item[1], item[2])
         add(b'A=0')
+        add(b'END')
         lines = [b'%d %s' % (10 * (i + 1), s) for i, s in enumerate(stmts)]
+        for n in sorted(traps.handler):
+            lines.append(b'%d H%%(%d)=H%%(%d)+1' % (HANDLER_LINE + 10 * n, n, n))
+            lines.append(b'%d RETURN' % (HANDLER_LINE + 10 * n + 5))
         return lines, sched, actions
 
     def run_program(self, ops, m):
+        m.traps = rk.KeyTraps()
         h = self.h
         lines, sched, actions = self.compile(ops)
-        with h.Box(budget=len(lines) + 50) as box:
+        with h.Box(budget=len(lines) + 50 + 2 * sum(self.hits.values())) as box:
             _, audio = h.record_queues(box.s, video=False)
             box.enter(lines)
             box.stepper.schedule = dict(
-                (b, [h.key_event(k[0], k[1]) for k in keys]) for b, keys in sched.items())
+                (b, [mk_event(h, k) for k in keys]) for b, keys in sched.items())
             out = box.run()
             self._count_beeps(audio)
             code, line = h.err_of(out)
@@ -439,7 +565,17 @@ class Runner(object):
             for idx, act in actions:
                 c = act[0]
                 if c == 'k':
-                    self._deliver(m, act[1])
+                    passed = [k for k in act[1] if not m.traps.swallows(k)]
+                    if len(passed) < len(act[1]):
+                        self.res.count('key_events_swallowed_by_trap', len(act[1]) - len(passed))
+                        self.res.count('same_key_other_shift_state_passed_trap',
+                                       sum(1 for k in passed if len(k) > 2 and any(
+                                           k[1] == sc for _, sc in m.traps.user.values())))
+                    self._deliver(m, passed)
+                    continue
+                if c in ('kd', 'kg', 'ko'):
+                    _trap_action(m.traps, act)
+                    m.with_traps = True
                     continue
                 if stopped is not None and idx >= stopped:
                     if c in ('i', 'n'):
@@ -479,6 +615,13 @@ class Runner(object):
             if stopped is not None:
                 raise Divergence('program-stopped', 'history program ended with %r' % out[-60:])
             self.res.count('keys_delivered_at_statement_boundaries', sum(len(v) for v in sched.values()))
+            if self.hits:
+                H = box.get('H%()')
+                for n, cnt in sorted(self.hits.items()):
+                    if H[n] != cnt:
+                        raise Divergence('trap-handler-runs', 'handler of KEY(%d) ran %d times, its key arrived at %d statement '
+                                         'boundaries while the trap was ON' % (n, H[n], cnt))
+                self.res.count('key_trap_handler_runs', sum(self.hits.values()))
 
     # -- one case ----------------------------------------------------------------------------------
     def case(self, ops, mode, tag):
@@ -487,6 +630,9 @@ class Runner(object):
         m = rk.Kbd()
         m.cleared = False
         m.last_poke = None
+        m.with_traps = False
+        if any(op[0] in ('kd', 'kg', 'ko') for op in ops):
+            mode = 'program'        # key traps only act while a program runs
         case = {'mode': mode, 'ops': ops, 'origin': tag}
         try:
             if mode == 'direct':
@@ -500,6 +646,9 @@ class Runner(object):
             elif m.last_poke == 'clear' and d.kind != 'statement-error':
                 key = CLEAR_KEY
                 text = 'after POKE 1050,PEEK(1052): ' + d.text
+            elif m.with_traps and d.kind != 'statement-error':
+                key = 'kbd:with-key-traps:' + d.kind
+                text = 'KEY traps defined: ' + d.text
             else:
                 key = 'kbd:' + d.kind
                 text = d.text
@@ -572,6 +721,27 @@ def directed_cases():
                                 ['p', 1], ['r', 1], ['n', 3], ['p', 1], ['r', 3], ['p', 1], ['r', 12], ['p', 0]]))
     out.append(('softkey-full', [['m', 5, u'hi'], ['m', 6, u''], ['k', [FK[4], FK[5]] * 9], ['p', 1], ['r', 40], ['p', 1]]))
     out.append(('softkey-clear', [['m', 7, u''], ['k', [FK[6], [u'a', None], FK[6]]], ['r', 1], ['c'], ['r', 3], ['k', [FK[6]]], ['p', 1], ['r', 2]]))
+    # KEY traps: exactly the trapped key / shift-state combination is taken away, everything else arrives in order
+    for n in range(1, 15):
+        scan = rk.KeyTraps.PREDEFINED[n]
+        kk = (_fkeys() + CURSOR)[n - 1]
+        other = (_fkeys() + CURSOR)[n % 14]
+        burst = [[u'x', None, ''], kk + [''], [u'y', None, ''], kk + ['S'], other + [''], [u'z', None, '']]
+        out.append(('trap KEY(%d)' % n, [['m', 1 + n % 10, u'']] + [['kg', n], ['ko', n, 'ON'], ['k', burst], ['p', 1], ['r', 6],
+                                         ['ko', n, 'OFF'], ['k', burst], ['p', 1], ['r', 12], ['p', 0]]))
+    shifts = ['', 'S', 'C', 'A', 'CA', 'SC']
+    for i, flags in enumerate([0, 1, 2, 3, 4, 8, 12, 7]):
+        n = 15 + i % 6
+        ch = sorted(LETTERS)[i % len(LETTERS)]
+        oth = sorted(LETTERS)[(i + 1) % len(LETTERS)]
+        burst = [letter_event(ch, md) for md in shifts] + [letter_event(oth, md) for md in shifts] + [letter_event(ch, md) for md in reversed(shifts)]
+        out.append(('trap KEY %d flags %d' % (n, flags),
+                    [['kd', n, flags, LETTERS[ch]], ['kg', n], ['ko', n, 'ON'], ['k', burst[:9]], ['p', 1], ['r', 10], ['k', burst[9:]], ['p', 1], ['r', 10],
+                     ['ko', n, 'OFF'], ['k', burst[:8]], ['r', 9], ['p', 0]]))
+    out.append(('trap two', [['kd', 15, 4, LETTERS[u'a']], ['kd', 16, 0, LETTERS[u'a']], ['kg', 15], ['kg', 16], ['kg', 2], ['ko', 15, 'ON'], ['ko', 2, 'ON'],
+                             ['k', [letter_event(u'a', ''), letter_event(u'a', 'C'), _fkeys()[1] + [''], letter_event(u'b', 'C'), letter_event(u'a', 'S')]],
+                             ['p', 1], ['r', 4], ['ko', 16, 'ON'], ['k', [letter_event(u'a', ''), letter_event(u'a', 'A'), letter_event(u'a', 'C')]],
+                             ['p', 1], ['r', 3], ['p', 0]]))
     # bursts around the capacity at every ring position: what is held, what is dropped, in which order
     for pos in range(16):
         for n in (14, 15, 16, 17, 18):
@@ -644,8 +814,13 @@ def run_shard(spec, res):
         rng = random.Random('%s:C37:%s:%s' % (spec['seed'], kind, spec.get('part', 0)))
         for i in range(spec['n']):
             with_clear = (i % 2 == 1)
-            ops = gen_history(rng, runner.ext, with_clear)
-            mode = 'direct' if (i // 2) % 2 == 0 else 'program'
+            if i % 8 == 6:
+                # key traps defined and enabled while keys of every shift state arrive (stored program only)
+                ops = gen_trap_history(rng, runner.ext)
+                mode = 'program'
+            else:
+                ops = gen_history(rng, runner.ext, with_clear)
+                mode = 'direct' if (i // 2) % 2 == 0 else 'program'
             runner.case(ops, mode, 'random')
             if i < 2:
                 res.sample({'kind': 'hist', 'mode': mode, 'ops': ops})
